@@ -3,6 +3,7 @@ CONSTANTS
   N = 3
   Atoms <- Atoms4
   MaxLevel = 2
+  Scale = 1
   SavePredBug = TRUE
 INVARIANT DistExact
 INVARIANT ConflictIffNegCycle
